@@ -163,7 +163,18 @@ async fn handle_stream(
     // Receive header
     if let Some(result) = stream.next().await {
         let frame = result?;
-        let topic = frame.get_topic().ok_or(anyhow!("Expected header frame"))?;
+        let topic = match frame.get_topic() {
+            Some(topic) => topic,
+            // Not a registration frame: tell the peer instead of silently dropping the stream
+            None => {
+                let payload = ErrorPayload {
+                    code: error_codes::UNKNOWN_ERROR,
+                    message: "Expected a registration frame".into(),
+                };
+                stream.send(Frame::Error(payload)).await?;
+                return Err(anyhow!("Expected header frame"));
+            }
+        };
 
         #[cfg(feature = "__cloud")]
         {
